@@ -22,9 +22,37 @@ const (
 	// ReadFromErr is ReadFrom with a source that fails with a non-EOF error after
 	// it has delivered its bytes.
 	ReadFromErr
+	// ReadFromStall is ReadFrom with a source that delivers its bytes and then
+	// returns (0, nil) for ever (io.ReaderFrom implementations give up with
+	// io.ErrNoProgress).
+	ReadFromStall
 )
 
-var kindNames = []string{"Write", "ReadFrom", "WriteThrough", "FlushFragment", "Flush", "Grow", "ReadFromErr"}
+// stallSrc delivers p in pieces of at most step bytes, then stalls.
+type stallSrc struct {
+	p     []byte
+	step  int
+	Empty int
+}
+
+func (s *stallSrc) Read(b []byte) (int, error) {
+	if len(s.p) == 0 {
+		s.Empty++
+		return 0, nil
+	}
+	n := len(b)
+	if n > s.step {
+		n = s.step
+	}
+	n = copy(b[:n], s.p)
+	s.p = s.p[n:]
+	return n, nil
+}
+
+var kindNames = []string{"Write", "ReadFrom", "WriteThrough", "FlushFragment", "Flush", "Grow", "ReadFromErr", "ReadFromStall"}
+
+// KindName names an operation kind.
+func KindName(k int) string { return kindNames[k] }
 
 // Op is a symbolic operation.
 type Op struct {
@@ -106,6 +134,9 @@ func Alphabet() []Op {
 	for _, s := range []int{1, 3, 6} {
 		a = append(a, Op{Kind: ReadFromErr, Sel: s})
 	}
+	for _, s := range []int{0, 3, 6} {
+		a = append(a, Op{Kind: ReadFromStall, Sel: s})
+	}
 	a = append(a, Op{Kind: FlushFragment}, Op{Kind: Flush})
 	return a
 }
@@ -160,6 +191,10 @@ func Apply(w *wsutil.Writer, op Op, feed *Feed, planSeed int64) (r Result) {
 		p := feed.Next(k)
 		plans := xport.Plans(planSeed, nil)
 		src := xport.NewCutter(p, plans[int(uint64(planSeed)%uint64(len(plans)))], len(p), xport.ErrInjected)
+		n, err := w.ReadFrom(src)
+		r.N, r.Err = n, err
+	case ReadFromStall:
+		src := &stallSrc{p: feed.Next(k), step: 1 + int(uint64(planSeed)%7)*5}
 		n, err := w.ReadFrom(src)
 		r.N, r.Err = n, err
 	case WriteThrough:
